@@ -139,12 +139,12 @@ func (i *interpreter) strEq(x, y value) value {
 	if len(rx) != len(ry) {
 		for _, e := range rx {
 			if _, isO := e.(opaqueSeg); isO {
-				panic(pathAbort{abortUnsupported, "comparison involving opaque formatted text"})
+				return i.unknownBool("comparison involving text formatted from a symbolic number")
 			}
 		}
 		for _, e := range ry {
 			if _, isO := e.(opaqueSeg); isO {
-				panic(pathAbort{abortUnsupported, "comparison involving opaque formatted text"})
+				return i.unknownBool("comparison involving text formatted from a symbolic number")
 			}
 		}
 		return false
@@ -156,7 +156,7 @@ func (i *interpreter) strEq(x, y value) value {
 			if isOx && isOy && ox.id == oy.id {
 				continue
 			}
-			panic(pathAbort{abortUnsupported, "comparison involving opaque formatted text"})
+			return i.unknownBool("comparison involving text formatted from a symbolic number")
 		}
 	}
 	b := i.path.B
@@ -404,4 +404,12 @@ func freshSlice(elems []value, elemSize int64) []value {
 	out := make([]value, len(elems), c)
 	copy(out, elems)
 	return out
+}
+
+// unknownBool is an unconstrained boolean: both outcomes are explored and the
+// path is flagged imprecise (counterexamples need native confirmation).
+func (i *interpreter) unknownBool(why string) value {
+	i.path.Imprecise(why)
+	i.opaqueN++
+	return mkScalar(i.path.B.Var(fmt.Sprintf("unk_%d", i.opaqueN), smt.Bool), types.Bool)
 }
